@@ -63,7 +63,8 @@ class Run:
         k = self.next
         kind = self.program[k]
         self.next += 1
-        self.current_k = k
+        if kind != 'u':
+            self.current_k = k          # (read by the shared coroutine function when it starts: the index of the assignment it belongs to)
         self.assigned_at.append(len(self.seen))
         run = self
         param = self.param
